@@ -256,3 +256,33 @@ func TestRegression_QueryBetweenFileCommitAndMemdbRelease(t *testing.T) {
 		t.Fatalf("after flush:\n%swant:\n%s", after, want)
 	}
 }
+
+// (repaired in /repo, 5ce1835) month-/year-type interval: segment.GetDataFamilies combined the day of
+// month / month of year of the range's start with the base time of a later segment, so a range that
+// starts in an earlier segment lost every family of the later one.
+func TestRegression_RangeStartsInEarlierSegment(t *testing.T) {
+	for _, s := range []int64{10 * 60_000, 4 * hourMs} {
+		e, err := newEnv(s)
+		if err != nil {
+			t.Fatal(err)
+		}
+		e.forcePreRegister = true
+		md := metricDef{Name: "m", Fields: []fieldDef{{"s", tSum}}, Keys: []string{"host"}, Series: []map[string]string{{"host": "a"}}}
+		dec31 := dayOf(2023, 12, 31) + 20*hourMs
+		jan1 := dayOf(2024, 1, 1) + 8*hourMs
+		if err := e.write([]metricDef{md}, []rowSpec{
+			{M: 0, S: 0, TS: dec31, Vals: []fieldVal{v("s", 1)}},
+			{M: 0, S: 0, TS: jan1, Vals: []fieldVal{v("s", 2)}},
+		}); err != nil {
+			t.Fatal(err)
+		}
+		q := mQuery{Metric: "m", Items: []selectItem{{Field: "s"}}, Start: dec31 - hourMs, End: jan1 + hourMs}
+		for _, stage := range []string{"memory", "flushed"} {
+			e.checkQuery(t, q, func() string { return fmt.Sprintf("  interval %s, %s\n", fmtDuration(s), stage) })
+			if err := e.flushDB(); err != nil {
+				t.Fatal(err)
+			}
+		}
+		e.close()
+	}
+}
